@@ -1,7 +1,4 @@
-use std::{
-    sync::{Arc, Mutex},
-    time::Duration,
-};
+use std::sync::{Arc, Mutex};
 
 use super::BufferParser;
 use crate::{ansi, Buffer, CallbackAction, Caret, EngineResult, Size};
@@ -146,8 +143,13 @@ impl Loop {
         }
         // println!("step: {:?} => {:?}", self.loop_parameters[cur_parameter], parameters);
         let res = exe.lock().unwrap().execute_command(buf, caret, self.command, &parameters, &self.parsed_string);
-        // todo: correct delay?
-        std::thread::sleep(Duration::from_millis(200 * self.delay as u64));
+        // the delay between two loop steps is the caller's business (it polls get_next_action): hand it a pause
+        // instead of blocking inside the engine for a time taken from the stream
+        let res = if self.delay > 0 && res.is_ok() {
+            Ok(CallbackAction::Pause(200u32.saturating_mul(self.delay.min(i32::from(u16::MAX)) as u32)))
+        } else {
+            res
+        };
         if self.from < self.to {
             self.i += self.step;
         } else {
